@@ -4,7 +4,7 @@ import SemverSpec.NpmText
 # The crate's range parser on every text of the npm range grammar (towards C01, part T2)
 
 `Spec.Npm.AstText r s` relates a syntax tree to its spellings.  Here: on every such text the parser
-yields exactly the desugaring tables applied to the tree (`boundSets_text`).
+yields exactly the desugaring tables applied to the tree (`boundSets_textG hG`).
 -/
 namespace Semver
 open Pred Bound Spec Spec.Npm
@@ -400,8 +400,43 @@ theorem garbage_tok {tok rest : List Char} (h1 : ∀ d ∈ tok, isBlank d = fals
     simp only [Bool.false_eq_true, if_false]
     exact ih (fun d hd => h1 d (by simp [hd]))
 
+/-- what the parser theorems need of a class `G` of garbage tokens: followed by a token boundary such
+a token is consumed whole and yields nothing; it starts with no blank, `-` or `|` -/
+structure GarbageOK (G : List Char → Prop) : Prop where
+  parse : ∀ tok rest, G tok → TokFollow rest → simple (tok ++ rest) = (none, rest)
+  head : ∀ tok, G tok → ∃ c u, tok = c :: u ∧ isBlank c = false ∧ c ≠ '-' ∧ c ≠ '|'
+
+/-- tokens whose first character can start no comparator are such a class -/
+theorem garbageTok_ok : GarbageOK GarbageTok := by
+  constructor
+  · intro tok rest hg hr
+    obtain ⟨c, u, rfl, hstart, hall⟩ := hg
+    simp only [tokenStart, Bool.or_eq_false_iff, beq_eq_false_iff_ne, ne_eq] at hstart
+    obtain ⟨⟨⟨⟨⟨⟨⟨⟨⟨⟨⟨⟨h1, h2⟩, h3⟩, h4⟩, h5⟩, h6⟩, h7⟩, h8⟩, h9⟩, h10⟩, h11⟩, h12⟩, h13⟩ := hstart
+    rw [digit_eq] at h1
+    rw [blank_eq] at h2
+    simp only [List.cons_append]
+    have hhy : hyphen (c :: (u ++ rest)) = none := hyphen_none_of_head h6 h2 h1 ⟨h3, h4, h5⟩
+    have hprim : primitive (c :: (u ++ rest)) = none := primitive_none_of_head h8 h9 h7
+    have hpart : partialP (c :: (u ++ rest)) = none := partialP_none_of_head h6 h2 h1 ⟨h3, h4, h5⟩
+    have htil : Semver.tilde (c :: (u ++ rest)) = none := tilde_none_of_head h10
+    have hcar : Semver.caret (c :: (u ++ rest)) = none := caret_none_of_head h11
+    unfold simple
+    rw [hhy, hprim, hpart, htil, hcar]
+    simp only [terminated]
+    have := garbage_tok (tok := c :: u) (rest := rest)
+      (fun d hd => by have := hall d hd; rw [blank_eq] at this; exact this) hr.atEnd
+    simp only [List.cons_append] at this
+    rw [this]
+  · intro tok hg
+    obtain ⟨c, u, rfl, hstart, hall⟩ := hg
+    simp only [tokenStart, Bool.or_eq_false_iff, beq_eq_false_iff_ne, ne_eq] at hstart
+    refine ⟨c, u, rfl, ?_, hstart.1.2, hstart.2⟩
+    have := hstart.1.1.1.1.1.1.1.1.1.1.1.2
+    rw [blank_eq] at this; exact this
+
 /-- **`simple` on every spelling of a simple range**, followed by a token boundary -/
-theorem simple_text {s : Simple} {t rest : List Char} (h : SimpleText s t) (hr : TokFollow rest) :
+theorem simple_textG {G : List Char → Prop} (hG : GarbageOK G) {s : Simple} {t rest : List Char} (h : SimpleTextG G s t) (hr : TokFollow rest) :
     simple (t ++ rest) = (evalSimple s, rest) := by
   have hef := atEnd_extrasFollow hr.atEnd
   cases h with
@@ -511,28 +546,10 @@ theorem simple_text {s : Simple} {t rest : List Char} (h : SimpleText s t) (hr :
     unfold simple
     rw [hhy, hprim, hpart, htil, hcar]
     simp [terminated, hr.atEnd, evalSimple]
-  | @garbage tok hg =>
-    obtain ⟨c, u, rfl, hstart, hall⟩ := hg
-    simp only [tokenStart, Bool.or_eq_false_iff, beq_eq_false_iff_ne, ne_eq] at hstart
-    obtain ⟨⟨⟨⟨⟨⟨⟨⟨⟨⟨⟨⟨h1, h2⟩, h3⟩, h4⟩, h5⟩, h6⟩, h7⟩, h8⟩, h9⟩, h10⟩, h11⟩, h12⟩, h13⟩ := hstart
-    rw [digit_eq] at h1
-    rw [blank_eq] at h2
-    simp only [List.cons_append]
-    have hhy : hyphen (c :: (u ++ rest)) = none := hyphen_none_of_head h6 h2 h1 ⟨h3, h4, h5⟩
-    have hprim : primitive (c :: (u ++ rest)) = none := primitive_none_of_head h8 h9 h7
-    have hpart : partialP (c :: (u ++ rest)) = none := partialP_none_of_head h6 h2 h1 ⟨h3, h4, h5⟩
-    have htil : Semver.tilde (c :: (u ++ rest)) = none := tilde_none_of_head h10
-    have hcar : Semver.caret (c :: (u ++ rest)) = none := caret_none_of_head h11
-    unfold simple
-    rw [hhy, hprim, hpart, htil, hcar]
-    simp only [terminated, evalSimple]
-    have := garbage_tok (tok := c :: u) (rest := rest)
-      (fun d hd => by have := hall d hd; rw [blank_eq] at this; exact this) hr.atEnd
-    simp only [List.cons_append] at this
-    rw [this]
+  | garbage hg => exact hG.parse _ rest hg hr
 
 /-- the first character of a simple range is not a blank, not `-`, not `|` -/
-theorem simpleText_head {s : Simple} {t : List Char} (h : SimpleText s t) :
+theorem simpleText_headG {G : List Char → Prop} (hG : GarbageOK G) {s : Simple} {t : List Char} (h : SimpleTextG G s t) :
     ∃ c u, t = c :: u ∧ isBlank c = false ∧ c ≠ '-' ∧ c ≠ '|' := by
   cases h with
   | @prim op p gap t hg ht =>
@@ -545,12 +562,7 @@ theorem simpleText_head {s : Simple} {t : List Char} (h : SimpleText s t) :
   | tilde _ _ => exact ⟨'~', _, rfl, by decide⟩
   | tildeGt _ _ _ => exact ⟨'~', _, rfl, by decide⟩
   | caret _ _ => exact ⟨'^', _, rfl, by decide⟩
-  | garbage hg =>
-    obtain ⟨c, u, rfl, hstart, hall⟩ := hg
-    simp only [tokenStart, Bool.or_eq_false_iff, beq_eq_false_iff_ne, ne_eq] at hstart
-    refine ⟨c, u, rfl, ?_, hstart.1.2, hstart.2⟩
-    have := hstart.1.1.1.1.1.1.1.1.1.1.1.2
-    rw [blank_eq] at this; exact this
+  | garbage hg => exact hG.head _ hg
 
 end Semver
 
@@ -633,13 +645,13 @@ theorem rangeTail_altEnd {rest rest0 : List Char} (h : AltEnd rest rest0) :
     rw [rangeTail_altFollow hf]
     rfl
 
-theorem simplesText_head {l : List Simple} {T : List Char} (h : SimplesText l T) (hne : l ≠ []) :
+theorem simplesText_headG {G : List Char → Prop} (hG : GarbageOK G) {l : List Simple} {T : List Char} (h : SimplesTextG G l T) (hne : l ≠ []) :
     ∃ c u, T = c :: u ∧ isBlank c = false ∧ c ≠ '-' ∧ c ≠ '|' := by
   cases h with
   | nil => exact absurd rfl hne
-  | one hs => exact simpleText_head hs
+  | one hs => exact simpleText_headG hG hs
   | cons hs _ _ _ =>
-    obtain ⟨c, u, rfl, hc⟩ := simpleText_head hs
+    obtain ⟨c, u, rfl, hc⟩ := simpleText_headG hG hs
     exact ⟨c, _, rfl, hc⟩
 
 theorem tokFollow_blanks_tok {b T rest : List Char} (hne : b ≠ []) (hb : b.all isBlank = true)
@@ -658,32 +670,32 @@ theorem blanks1_of {b : List Char} (h : Blanks1 b) : b ≠ [] ∧ b.all isBlank 
   ⟨h.1, by rw [← all_blank_eq]; exact h.2⟩
 
 /-- the loop of `range()` on the rest of a comparator list -/
-theorem rangeTail_simples {l : List Simple} {T : List Char} (h : SimplesText l T) (hne : l ≠ [])
+theorem rangeTail_simplesG {G : List Char → Prop} (hG : GarbageOK G) {l : List Simple} {T : List Char} (h : SimplesTextG G l T) (hne : l ≠ [])
     {b rest rest0 : List Char} (hb : b ≠ [] ∧ b.all isBlank = true) (hr : AltEnd rest rest0) :
     ∃ k, rangeTail (b ++ (T ++ rest)) = (l.map evalSimple ++ List.replicate k none, rest0) := by
   induction h generalizing b with
   | nil => exact absurd rfl hne
   | @one s t hs =>
-    obtain ⟨c, u, hcu, hc⟩ := simpleText_head hs
+    obtain ⟨c, u, hcu, hc⟩ := simpleText_headG hG hs
     obtain ⟨k, hk⟩ := rangeTail_altEnd hr
     refine ⟨k, ?_⟩
     have hb1 : blanks1 (b ++ (t ++ rest)) = some (t ++ rest) :=
       blanks1_blanks hb.1 hb.2 (by intro d hd; rw [hcu] at hd; simp at hd; subst hd; exact hc.1)
-    rw [rangeTail_some hb1, simple_text hs hr.tokFollow]
+    rw [rangeTail_some hb1, simple_textG hG hs hr.tokFollow]
     simp only
     rw [hk]
     rfl
   | @cons s t b' l T hs hb' hl hlne ih =>
-    obtain ⟨c, u, hcu, hc⟩ := simpleText_head hs
+    obtain ⟨c, u, hcu, hc⟩ := simpleText_headG hG hs
     have e : t ++ (b' ++ T) ++ rest = t ++ (b' ++ (T ++ rest)) := by simp
     rw [e]
     have hb1 : blanks1 (b ++ (t ++ (b' ++ (T ++ rest)))) = some (t ++ (b' ++ (T ++ rest))) :=
       blanks1_blanks hb.1 hb.2 (by intro d hd; rw [hcu] at hd; simp at hd; subst hd; exact hc.1)
     have hb'' := blanks1_of hb'
-    have htf := tokFollow_blanks_tok (rest := rest) hb''.1 hb''.2 (simplesText_head hl hlne)
+    have htf := tokFollow_blanks_tok (rest := rest) hb''.1 hb''.2 (simplesText_headG hG hl hlne)
     obtain ⟨k, hk⟩ := ih hlne hb''
     refine ⟨k, ?_⟩
-    rw [rangeTail_some hb1, simple_text hs htf]
+    rw [rangeTail_some hb1, simple_textG hG hs htf]
     simp only
     rw [hk]
     rfl
@@ -705,7 +717,7 @@ theorem foldSets_single (o : Option BoundSet) (k : Nat) :
   cases o <;> simp [foldSets]
 
 /-- **`range()` on a comparator list** -/
-theorem rangeP_simples {l : List Simple} {T : List Char} (h : SimplesText l T) (hne : l ≠ [])
+theorem rangeP_simplesG {G : List Char → Prop} (hG : GarbageOK G) {l : List Simple} {T : List Char} (h : SimplesTextG G l T) (hne : l ≠ [])
     {rest rest0 : List Char} (hr : AltEnd rest rest0) :
     rangeP (T ++ rest) = (foldSets (l.map evalSimple), rest0) := by
   cases h with
@@ -714,7 +726,7 @@ theorem rangeP_simples {l : List Simple} {T : List Char} (h : SimplesText l T) (
     obtain ⟨k, hk⟩ := rangeTail_altEnd hr
     unfold rangeP
     simp only
-    rw [simple_text hs hr.tokFollow]
+    rw [simple_textG hG hs hr.tokFollow]
     simp only
     rw [hk]
     simp only [List.map_cons, List.map_nil]
@@ -725,11 +737,11 @@ theorem rangeP_simples {l : List Simple} {T : List Char} (h : SimplesText l T) (
     have e : t ++ (b ++ T) ++ rest = t ++ (b ++ (T ++ rest)) := by simp
     rw [e]
     have hb' := blanks1_of hb
-    have htf := tokFollow_blanks_tok (rest := rest) hb'.1 hb'.2 (simplesText_head hl hlne)
-    obtain ⟨k, hk⟩ := rangeTail_simples hl hlne hb' hr
+    have htf := tokFollow_blanks_tok (rest := rest) hb'.1 hb'.2 (simplesText_headG hG hl hlne)
+    obtain ⟨k, hk⟩ := rangeTail_simplesG hG hl hlne hb' hr
     unfold rangeP
     simp only
-    rw [simple_text hs htf]
+    rw [simple_textG hG hs htf]
     simp only
     rw [hk]
     simp only [List.map_cons]
@@ -801,17 +813,17 @@ theorem rangeP_altFollow {r0 : List Char} (h : AltFollow r0) : rangeP r0 = ([], 
   rw [rangeTail_altFollow h]
   rfl
 
-theorem simplesText_nil {T : List Char} (h : SimplesText [] T) : T = [] := by
+theorem simplesText_nilG {G : List Char → Prop} (hG : GarbageOK G) {T : List Char} (h : SimplesTextG G [] T) : T = [] := by
   cases h; rfl
 
-theorem altText_head {a : Alt} {t : List Char} (h : AltText a t) (hne : t ≠ []) :
+theorem altText_headG {G : List Char → Prop} (hG : GarbageOK G) {a : Alt} {t : List Char} (h : AltTextG G a t) (hne : t ≠ []) :
     ∀ c, t.head? = some c → isBlank c = false := by
   intro c hc
   cases h with
   | @simples l t hl =>
     by_cases hl0 : l = []
-    · subst hl0; exact absurd (simplesText_nil hl) hne
-    · obtain ⟨d, u, rfl, hd, _⟩ := simplesText_head hl hl0
+    · subst hl0; exact absurd (simplesText_nilG hG hl) hne
+    · obtain ⟨d, u, rfl, hd, _⟩ := simplesText_headG hG hl hl0
       simp at hc; subst hc; exact hd
   | hyphen ha _ _ _ =>
     obtain ⟨d, u, rfl, hd⟩ := partialText_head ha
@@ -819,7 +831,7 @@ theorem altText_head {a : Alt} {t : List Char} (h : AltText a t) (hne : t ≠ []
     exact (partialStart_facts hd).1
 
 /-- **`range()` on any alternative**, after `space0` -/
-theorem rangeP_alt {a : Alt} {t : List Char} (h : AltText a t) {b0 rest rest0 : List Char}
+theorem rangeP_altG {G : List Char → Prop} (hG : GarbageOK G) {a : Alt} {t : List Char} (h : AltTextG G a t) {b0 rest rest0 : List Char}
     (hb0 : b0.all isBlank = true) (hr : AltEnd rest rest0) :
     rangeP (dropBlanks (b0 ++ (t ++ rest))) = (evalAlt a, rest0) := by
   by_cases ht : t = []
@@ -836,7 +848,7 @@ theorem rangeP_alt {a : Alt} {t : List Char} (h : AltText a t) {b0 rest rest0 : 
     | @simples l t hl =>
       by_cases hl0 : l = []
       · subst hl0; rfl
-      · obtain ⟨c, u, hcu, _⟩ := simplesText_head hl hl0
+      · obtain ⟨c, u, hcu, _⟩ := simplesText_headG hG hl hl0
         rw [hcu] at ht; cases ht
     | hyphen ha _ _ _ =>
       obtain ⟨d, u, hdu, _⟩ := partialText_head ha
@@ -845,7 +857,7 @@ theorem rangeP_alt {a : Alt} {t : List Char} (h : AltText a t) {b0 rest rest0 : 
   · have hd : dropBlanks (b0 ++ (t ++ rest)) = t ++ rest := by
       apply dropBlanks_append b0 _ hb0
       intro c hc
-      apply altText_head h ht c
+      apply altText_headG hG h ht c
       cases t with
       | nil => exact absurd rfl ht
       | cons d u => simpa using hc
@@ -853,8 +865,8 @@ theorem rangeP_alt {a : Alt} {t : List Char} (h : AltText a t) {b0 rest rest0 : 
     cases h with
     | @simples l t hl =>
       have hl0 : l ≠ [] := by
-        intro h0; subst h0; exact ht (simplesText_nil hl)
-      exact rangeP_simples hl hl0 hr
+        intro h0; subst h0; exact ht (simplesText_nilG hG hl)
+      exact rangeP_simplesG hG hl hl0 hr
     | hyphen ha hb1 hb2 hc => exact rangeP_hyphen ha hb1 hb2 hc hr
 
 end Semver
@@ -877,7 +889,7 @@ theorem boundSets_nil : (boundSets []).1 = [] := by
 
 /-- **`bound_sets()` on every text of the grammar**: the tables applied to the tree, alternative by
 alternative -/
-theorem boundSets_alts {r : Ast} {T : List Char} (h : AltsText r T) :
+theorem boundSets_altsG {G : List Char → Prop} (hG : GarbageOK G) {r : Ast} {T : List Char} (h : AltsTextG G r T) :
     ∀ b0 b2 : List Char, b0.all isBlank = true → b2.all isBlank = true →
       (boundSets (dropBlanks (b0 ++ (T ++ b2)))).1 = evalAst r := by
   induction h with
@@ -891,7 +903,7 @@ theorem boundSets_alts {r : Ast} {T : List Char} (h : AltsText r T) :
     have hr : AltEnd b2 [] := ⟨b2, by simp, hb2, Or.inl rfl⟩
     unfold boundSets
     simp only
-    rw [rangeP_alt ha hb0 hr]
+    rw [rangeP_altG hG ha hb0 hr]
     simp only
     rw [boundSetsTail_nil']
     simp [evalAst]
@@ -908,7 +920,7 @@ theorem boundSets_alts {r : Ast} {T : List Char} (h : AltsText r T) :
       ⟨ob1, rfl, hob1', Or.inr ⟨_, rfl⟩⟩
     unfold boundSets
     simp only
-    rw [rangeP_alt ha (by rw [← all_blank_eq]; exact hb0) hr]
+    rw [rangeP_altG hG ha (by rw [← all_blank_eq]; exact hb0) hr]
     simp only
     have hlo : logicalOr ('|' :: '|' :: (ob2 ++ (T ++ b2))) = some (dropBlanks (ob2 ++ (T ++ b2))) := by
       unfold logicalOr
@@ -922,15 +934,27 @@ theorem boundSets_alts {r : Ast} {T : List Char} (h : AltsText r T) :
     rw [this]
     simp [evalAst]
 
-theorem boundSets_text {r : Ast} {s : List Char} (h : AstText r s) : (boundSets (dropBlanks s)).1 = evalAst r := by
+theorem boundSets_textG {G : List Char → Prop} (hG : GarbageOK G) {r : Ast} {s : List Char} (h : AstTextG G r s) : (boundSets (dropBlanks s)).1 = evalAst r := by
   obtain ⟨b1, T, b2, rfl, hb1, hb2, hT⟩ := h
-  exact boundSets_alts hT b1 b2 (by rw [← all_blank_eq]; exact hb1) (by rw [← all_blank_eq]; exact hb2)
+  exact boundSets_altsG hG hT b1 b2 (by rw [← all_blank_eq]; exact hb1) (by rw [← all_blank_eq]; exact hb2)
 
 /-- **`Range::parse` on every text of the grammar** -/
-theorem parse_text {r : Ast} {s : List Char} (h : AstText r s) :
+theorem parse_textG {G : List Char → Prop} (hG : GarbageOK G) {r : Ast} {s : List Char} (h : AstTextG G r s) :
     Range.parse s = if (evalAst r).isEmpty then .error ⟨s, 0, .noValidRanges⟩ else .ok (evalAst r) := by
   unfold Range.parse
   simp only
-  rw [boundSets_text h]
+  rw [boundSets_textG hG h]
+
+/-! ### the same for the parser-independent garbage class `GarbageTok` -/
+
+theorem simple_text {s : Simple} {t rest : List Char} (h : SimpleText s t) (hr : TokFollow rest) :
+    simple (t ++ rest) = (evalSimple s, rest) := simple_textG garbageTok_ok h hr
+
+theorem boundSets_text {r : Ast} {s : List Char} (h : AstText r s) : (boundSets (dropBlanks s)).1 = evalAst r :=
+  boundSets_textG garbageTok_ok h
+
+theorem parse_text {r : Ast} {s : List Char} (h : AstText r s) :
+    Range.parse s = if (evalAst r).isEmpty then .error ⟨s, 0, .noValidRanges⟩ else .ok (evalAst r) :=
+  parse_textG garbageTok_ok h
 
 end Semver
